@@ -149,7 +149,145 @@ CONSTS2 = [('MAX_N', 'string', 'big'), ('RATIO', 'integer', '3'), ('SMALL', 'int
 OAL_TY = {'integer': 'int', 'string': 'str', 'boolean': 'bool', 'real': 'real'}
 
 
-def gen_graph(ints, for_prebuild=False, logical_calls=False):
+# -- state machines of the prebuild fixtures (C05 / C06 / C08 part 3): generate / create event statements, event data, and
+# state / transition actions reading the data of the event that brought them about ------------------------------------------
+SM_DEFS = [
+    {'cls': 'A', 'kind': 'ism',
+     'events': [{'numb': 1, 'mning': 'go', 'data': [['n', 'integer'], ['s', 'string']]},
+                {'numb': 2, 'mning': 'stop', 'data': []},
+                {'numb': 3, 'mning': 'tick over', 'data': [['flag', 'boolean'], ['count', 'Count'], ['ratio', 'real']]},
+                {'numb': 4, 'mning': 'made', 'data': [['n', 'integer']]}],
+     'states': ['Idle', 'Running', 'Done', 'Born'],
+     # every state is entered by one event only, so the data a state action may read is well defined
+     'txns': [[0, 0, 1], [1, 2, 2], [2, 1, 0], [None, 3, 3], [3, 1, 0]],
+     'ignored': [[0, 2], [1, 0]]},
+    {'cls': 'B', 'kind': 'ism',
+     'events': [{'numb': 1, 'mning': 'ping', 'data': [['k', 'integer']]}],
+     'states': ['Wait', 'Busy'], 'txns': [[0, 0, 1], [1, 0, 0]], 'ignored': []},
+    {'cls': 'A', 'kind': 'asm',
+     'events': [{'numb': 1, 'mning': 'assign', 'data': [['r', 'real'], ['who', 'string']]}],
+     'states': ['Free', 'Taken'], 'txns': [[0, 0, 1], [1, 0, 0]], 'ignored': []},
+]
+# (kind, machine index, state index | transition index)
+STATE_SPECS = [('state', 0, 1), ('state', 1, 1), ('state', 0, 2), ('txn', 0, 0), ('state', 2, 1), ('state', 0, 0), ('state', 0, 3),
+               ('state', 1, 0), ('txn', 1, 1), ('state', 2, 0)]
+BP_OAL = {'integer': 'int', 'string': 'str', 'boolean': 'bool', 'real': 'real', 'Count': 'int', 'Flag': 'bool'}
+
+
+def event_label(sm, ev):
+    return '%s%s%d' % (sm['cls'], '_A' if sm['kind'] == 'asm' else '', ev['numb'])
+
+
+def incoming_event(sm, kind, k):
+    """the event whose data a state action (state index k) / transition action (transition index k) may read"""
+    if kind == 'txn':
+        return sm['events'][sm['txns'][k][1]]
+    evs = set(ei for frm, ei, to in sm['txns'] if to == k)
+    assert len(evs) == 1, (sm['cls'], k, evs)
+    return sm['events'][evs.pop()]
+
+
+class EventHooks(CallHooks):
+    """statement hook of state / transition actions: two in three are event statements"""
+
+    def stmt(self, gen, env):
+        if self.available and gen.t.pick(3) == 0:
+            return CallHooks.stmt(self, gen, env)
+        return self.event_stmt(gen, env)
+
+    def event_stmt(self, gen, env):
+        t = gen.t
+        sm = t.choice(SM_DEFS)
+        creation = set(ei for frm, ei, to in sm['txns'] if frm is None)
+        ei = t.pick(len(sm['events']))
+        ev = sm['events'][ei]
+        items = [N('EventDataItemNode', name=dn, expression=gen.expr(env, BP_OAL[dt], 1)) for dn, dt in ev['data']]
+        if len(items) > 1 and t.flag():
+            items = items[1:] + items[:1]            # data items are named: any order may be written
+        spec = N('EventSpecNode', identifier=event_label(sm, ev), meaning="'%s'" % ev['mning'],
+                 event_data=N('EventDataListNode', children=items))
+        if not items and t.flag():
+            spec['_empty_parens'] = True
+        pre = []
+        form = t.pick(3)
+        if form:
+            evs = env.vars(lambda i: i['ty'] == 'evt')
+            if form == 2 and evs:
+                name = t.choice(evs)                 # an event variable that exists already is assigned anew
+            else:
+                name = env.fresh('ev')
+        if sm['kind'] == 'asm':
+            kw = t.choice(['class', 'assigner'])
+            node = (N('CreateClassEventNode', variable_name=name, event_specification=spec, key_letter=sm['cls'], _kind=kw) if form else
+                    N('GenerateClassEventNode', event_specification=spec, key_letter=sm['cls'], _kind=kw))
+        elif ei in creation:
+            node = (N('CreateCreatorEventNode', variable_name=name, event_specification=spec, key_letter=sm['cls']) if form else
+                    N('GenerateCreatorEventNode', event_specification=spec, key_letter=sm['cls']))
+        else:
+            recv = gen.nonempty_insts(env, sm['cls'])
+            recv = [r for r in recv if r != 'self']
+            if gen.self_cls == sm['cls'] and (not recv or t.flag()):
+                tgt = N('SelfAccessNode')
+            elif recv:
+                tgt = gen.var(t.choice(recv))
+            else:
+                v, pre = gen.create(env, sm['cls'])
+                tgt = gen.var(v)
+            node = (N('CreateInstanceEventNode', variable_name=name, event_specification=spec, to_variable_access=tgt) if form else
+                    N('GenerateInstanceEventNode', event_specification=spec, variable_access=tgt))
+        out = pre + [node]
+        gen.features.add('generate-event' if not form else 'create-event')
+        if items:
+            gen.features.add('event-data-%d' % min(len(items), 3))
+        if form:
+            env.set(name, {'ty': 'evt'})
+            if t.flag():
+                out.append(N('GeneratePreexistingNode', variable_access=gen.var(name)))
+                gen.features.add('generate-preexisting')
+        return out
+
+
+def gen_states(ints, order, features, forced=None):
+    """state / transition actions of the fixed state machines, appended to the callables of a prebuild fixture;
+    forced: indexes into STATE_SPECS instead of the drawn selection (replay of recorded witnesses)"""
+    t0 = Tape(list(ints[len(ints) // 2:]) + list(ints[:len(ints) // 2]))
+    n = 2 + t0.pick(3)
+    first = t0.pick(len(STATE_SPECS))
+    chosen = [(first + j) % len(STATE_SPECS) for j in range(n)] if forced is None else list(forced)
+    n = len(chosen)
+    out = []
+    for j in range(n):
+        kind, mi, k = STATE_SPECS[chosen[j]]
+        sm = SM_DEFS[mi]
+        ev = incoming_event(sm, kind, k)
+        off = ((j + 1) * len(ints)) // (n + 1)
+        t = Tape(list(ints[off:]) + list(ints[:off]))
+        name = '%s_%s_%s' % (sm['cls'], sm['kind'], sm['states'][k] if kind == 'state' else 't%d' % k)
+        c = Callable(kind, name, [(dn, BP_OAL[dt]) for dn, dt in ev['data']], None, sm['cls'])
+        c.udt = set(dn for dn, dt in ev['data'] if dt in UDT_BASE)
+        c.sm = (mi, k)
+        hooks = EventHooks([x for x in order if x.kind != 'derived'])
+        g = Gen(t, max_stmts=6, max_depth=2, calls=hooks, params=dict(c.params),
+                self_cls=sm['cls'] if sm['kind'] == 'ism' else None, ret_ty=None, allow_return=True)
+        g.enums = ('Color', [e for e in ENUM if e != 'None'])
+        g.consts = [('Limits', n_, OAL_TY[ty]) for n_, ty, _v in CONSTS] + [('Sizes', n_, OAL_TY[ty]) for n_, ty, _v in CONSTS2]
+        g.const_style = 'namespaced'
+        g.arrays = g.refattrs = g.self_relates = True
+        g.param_kw = ['param', 'rcvd_evt']
+        env = Env()
+        if g.self_cls:
+            env.set('self', {'ty': 'inst', 'cls': g.self_cls, 'nonempty': True, 'ro': True})
+        stmts = []
+        for _ in range(1 + t.pick(2)):
+            stmts += hooks.event_stmt(g, env)
+        stmts += g.stmts(env, 2, False, top=True, minimum=1)
+        c.body = N('BodyNode', block=block(stmts))
+        features |= g.features
+        out.append(c)
+    return out
+
+
+def gen_graph(ints, for_prebuild=False, logical_calls=False, states=None):
     t = Tape(ints)
     order = []
     specs = [('function', 'f0', None), ('bridge', 'b0', 'MYEE'), ('instop', 'iop', 'A'), ('function', 'f1', None),
@@ -307,6 +445,8 @@ def gen_graph(ints, for_prebuild=False, logical_calls=False):
         c.body = N('BodyNode', block=block(stmts))
         features |= g.features
         order.append(c)
+    if for_prebuild:
+        order += gen_states(ints, order, features, states)
     return order, features, t0
 
 
@@ -348,10 +488,20 @@ def diagram_with(callables, enum_order, kwcase=None, second_group=False):
         elif c.kind in ('classop', 'instop'):
             D['classes'][ix[c.cls]]['ops'].append({'name': c.name, 'instance': c.kind == 'instop', 'ret': ret,
                                                    'params': params, 'body': c.text})
-        else:
+        elif c.kind == 'derived':
             D['classes'][ix[c.cls]]['attrs'].append({'name': c.name, 'type': 'integer', 'derived': c.text})
     if ee['bridges']:
         D['ees'].append(ee)
+    states = [c for c in callables if c.kind in ('state', 'txn')]
+    if states:
+        for mi, sm in enumerate(SM_DEFS):
+            body = dict((c.sm[1], c.text) for c in states if c.kind == 'state' and c.sm[0] == mi)
+            tbody = dict((c.sm[1], c.text) for c in states if c.kind == 'txn' and c.sm[0] == mi)
+            D['classes'][ix[sm['cls']]].setdefault('sms', []).append({
+                'kind': sm['kind'], 'events': sm['events'],
+                'states': [{'name': nme, 'numb': k + 1, 'body': body.get(k, '')} for k, nme in enumerate(sm['states'])],
+                'txns': [[frm, ei, to, tbody.get(k)] for k, (frm, ei, to) in enumerate(sm['txns'])],
+                'ignored': sm['ignored']})
     return D
 
 
